@@ -306,14 +306,17 @@ def check_local_params(ctx, f, lp):
             idx['ploop'] = i
         if t == 'math_ast=kl.getMath()':
             idx['math'] = i
-        if t == 'kl_formula=libsbml.formulaToL3String(math_ast)':
+        if isinstance(s, ast.Assign) and isinstance(s.targets[0], ast.Name) and src(s.value).replace(' ', '') == 'libsbml.formulaToL3String(math_ast)':
             idx['formula'] = i
-        if t == 'rate_string=kl_formula':
+            fvar = s.targets[0].id
+            if fvar == 'rate_string':
+                idx['rate'] = i         # the printed formula is the rate string itself
+        if isinstance(s, ast.Assign) and src(s.targets[0]) == 'rate_string' and 'formula' in idx and src(s.value) == fvar:
             idx['rate'] = i
         if t == 'kl=%s.getKineticLaw()' % src(lp.target):
             idx['kl'] = i
     problems = []
-    if not all(k in idx for k in ('ploop', 'math', 'formula', 'rate', 'kl')) or not (idx['kl'] < idx['ploop'] < idx['math'] < idx['formula'] < idx['rate']):
+    if not all(k in idx for k in ('ploop', 'math', 'formula', 'rate', 'kl')) or not (idx['kl'] < idx['ploop'] < idx['math'] < idx['formula'] <= idx['rate']):
         problems.append('order kinetic law -> local parameter renaming -> getMath -> formulaToL3String -> rate string not found (%s)' % idx)
     else:
         pl = body[idx['ploop']]
@@ -363,7 +366,8 @@ def check_local_params(ctx, f, lp):
            '; '.join(sorted(set(problems))[:3]))
     # the general propensity uses that string
     txt = [util.stmt_key(s).replace(' ', '') for s in ast.walk(lp) if isinstance(s, ast.stmt)]
-    ok = txt.count("propensity_params['rate']=rate_string") >= 1 and txt.count("propensity_params['type']='general'") >= 1
+    ok = (txt.count("propensity_params['rate']=rate_string") >= 1 and txt.count("propensity_params['type']='general'") >= 1) or \
+        any(t_ in ("propensity_params={'type':'general','rate':rate_string}", "propensity_params={'rate':rate_string,'type':'general'}") for t_ in txt)
     rx = [t for t in txt if t.startswith('rxn=(')]
     ok2 = rx == ["rxn=(reactant_list,product_list,propensity_params['type'],propensity_params,delay_type,delay_reactants,delay_products,delay_params)"]
     ctx.ob('R13.4-local-parameters', 'general-rate', ok and ok2 and 'allreactions.append(rxn)' in txt, where,
@@ -648,6 +652,23 @@ def check_assembly(ctx):
     ctx.ob('R13.6-assembly', 'import_sbml', not miss and ok and len(rc) == 1, ctx.loc('sbmlutil', f),
            'all species, parameter values, the 8 reaction fields in order and the rule tuples with their frequency reach the model',
            str(miss) if miss else '')
+    # names are classified when a formula is compiled: a document parameter called `t` or `volume` is the document's parameter only if it
+    # is in the model before the reactions (kinetic laws, rate rules) and rules are created.  import_sbml's own loops do that; the Model
+    # constructor creates reactions first, so the model is never assembled by handing the imported pieces to Model(...)
+    prob = []
+    for c in ast.walk(f):
+        if isinstance(c, ast.Call) and src(c.func).split('.')[-1] == 'Model' and (c.args or c.keywords):
+            prob.append('`%s` (%s) builds the model through the constructor, which creates reactions before parameters' % (src(c)[:70], ctx.loc('sbmlutil', c)))
+    top = {}
+    for c in ast.walk(f):       # (the assembly is straight-line code with loops: source order is execution order)
+        if isinstance(c, ast.Call) and isinstance(c.func, ast.Attribute) and c.func.attr in ('_add_param', 'set_parameter', 'create_reaction', 'create_rule'):
+            top.setdefault(c.func.attr, []).append(c.lineno)
+    if top.get('_add_param') and top.get('create_reaction') and max(top['_add_param']) >= min(top['create_reaction']):
+        prob.append('parameters are added after reactions have been created')
+    if top.get('_add_param') and top.get('create_rule') and max(top['_add_param']) >= min(top['create_rule']):
+        prob.append('parameters are added after rules have been created')
+    ctx.ob('R13.6-assembly', 'parameters-first', not prob, ctx.loc('sbmlutil', f),
+           'every document parameter is in the model before any kinetic law or rule formula is compiled against it', '; '.join(prob[:2]))
 
 
 def check(ctx):
